@@ -152,6 +152,12 @@ func withZeros(t *rapid.T, sc []readStep) []readStep {
 	if gen.Chance(t, 30, "zerofirst") {
 		out = append([]readStep{{N: 0}}, out...)
 	}
+	if gen.Chance(t, 8, "zeroburst") {
+		// a long run of consecutive zero-byte reads (a reader that polls)
+		at := gen.Int(t, 0, len(out), "burstat")
+		burst := make([]readStep, gen.Pick(t, "burstlen", []int{16, 99, 100, 101, 128, 256, 1000}))
+		out = append(out[:at:at], append(burst, out[at:]...)...)
+	}
 	return out
 }
 
@@ -192,6 +198,11 @@ func TestC07(t *testing.T) {
 				}
 				sc.Src = "#" + p + "\n" + sc.Src
 			}
+		}
+		if gen.Chance(t, 4, "tail") {
+			// the input ends inside a multi-byte character, or just after one
+			sc.Src += gen.Pick(t, "tailkind", []string{"# caf\xc3", "#\xe2\x82", "\xf0\x9f\x98", "print \"\xc3", "\xc3", "# \u00e9", "\u00a0", "\xe2"})
+			sc.Class += "+tail"
 		}
 		// exhaustive two-way splits for short inputs
 		if len(sc.Src) <= 200 && gen.Chance(t, 35, "allsplits") {
